@@ -15,6 +15,8 @@ mod ring;
 mod phys;
 #[cfg(feature = "physics")]
 mod evt;
+#[cfg(feature = "physics")]
+mod drift;
 
 fn main() {
     let args: Vec<String> = std::env::args().collect();
